@@ -259,6 +259,18 @@ def handleDist : List Sx → Option String
         let groups := (groupSends dataOf p.sends).map fun (d, l) => s!"({d} {showIds l})"
         s!"({pid} {showNatList (chainNeeds pid)} {showIds p.recvs} ({" ".intercalate groups}))") ++ ")"
     some ("(" ++ " ".intercalate ranks ++ ")")
+  | [.atom "checkgood", prog] => do
+    -- the decidable hypothesis of partition_wf_partial, with the failing part
+    let p ← parseProgram prog
+    let diag := match diagnose p.commGraph with
+      | .ok _ => "ok"
+      | .error d => d.name
+    let ranks := (List.range p.length).map fun r =>
+      let s := p.rank r
+      let pv := (s.sendsOf r).all fun cd => (s.structDeps cd.2).all fun a => !s.isRecv a || (s.valueDeps cd.2).contains a
+      let nf := (s.sendsOf r).all fun cd => !s.isRecv cd.2
+      s!"({r} {if s.closedB then 1 else 0} {if pv then 1 else 0} {if nf then 1 else 0})"
+    some s!"{diag} ({" ".intercalate ranks})"
   | [.atom "partition", base, prog] => do
     let p ← parseProgram prog
     some (showPartition (partitionOf (← base.asNat?) p))
